@@ -1350,8 +1350,6 @@ theorem matmul_sound (hre : ∀ c, isReal c = true → re c = c) (a b r : Op K (
       · cases h
 
 
-def isSumOp : Op K (X → K) → Bool | .sum _ _ => true | _ => false
-
 theorem goodF_diagOK (y : Op K (X → K)) (h : goodF y = true) : diagOK y = true := by
   cases y <;> simp_all [goodF, diagOK]
 
@@ -1463,8 +1461,6 @@ theorem sandwichCore_sound (hre : ∀ c, isReal c = true → re c = c) (bun chee
       · cases h
 
 
-def isSandwichOp : Op K (X → K) → Bool | .sandwich _ _ _ => true | _ => false
-
 /-- **SandwichOperator.make(bun, cheese)** for a cheese that is not itself a SandwichOperator (`none`: the identity): every
     shortcut included, the result acts in mode `s` as the mode-ordered product of `bun.adjoint`, `cheese`, `bun` -/
 theorem mkSandwich_sound (hre : ∀ c, isReal c = true → re c = c) (bun : Op K (X → K)) (cheese : Option (Op K (X → K)))
@@ -1490,6 +1486,904 @@ theorem mkSandwich_sound (hre : ∀ c, isReal c = true → re c = c) (bun : Op K
     | _ =>
       simp only at h
       exact sandwichCore_sound isReal re blocks leaf hre bun _ r h hg hb hsum hbo hc2 s hs
+
+/-! ### Part 8 — the shape invariant `Inv` of constructed operators and its preservation by every constructor -/
+
+/-- predicates on operators that hold for the fresh operators the simplifiers create -/
+structure Fresh (P : Op K (X → K) → Prop) : Prop where
+  scaling : ∀ d c dt, P (Op.scaling d c dt)
+  diag0 : ∀ dm d dt, P (Op.diag dm d 0 dt)
+  null : ∀ d t, P (Op.null d t)
+
+theorem chainAbsorb_pres (P : Op K (X → K) → Prop) (hP : Fresh P) (f : K) (l : List (Op K (X → K))) (h : ∀ y ∈ l, P y) :
+    ∀ y ∈ (chainAbsorb S f l).1, P y := by
+  induction l with
+  | nil => simp [chainAbsorb]
+  | cons o os ih =>
+    by_cases hd : isDiag o = true
+    · obtain ⟨dm, d, t, dt, rfl⟩ := isDiag_cases o hd
+      simp only [chainAbsorb, hd, if_true]
+      intro y hy
+      simp only [List.mem_cons] at hy
+      rcases hy with rfl | hy
+      · exact hP.diag0 _ _ _
+      · exact h y (by simp [hy])
+    · have hd' : isDiag o = false := by simpa using hd
+      simp only [chainAbsorb, hd', Bool.false_eq_true, if_false]
+      intro y hy
+      simp only [List.mem_cons] at hy
+      rcases hy with rfl | hy
+      · exact h _ (by simp)
+      · exact ih (fun z hz => h z (by simp [hz])) y hy
+
+theorem chainMergeDiag_pres (P : Op K (X → K) → Prop) (hP : Fresh P) (l : List (Op K (X → K))) (h : ∀ y ∈ l, P y) :
+    ∀ y ∈ chainMergeDiag S l, P y := by
+  fun_induction chainMergeDiag S l with
+  | case1 a b rest hab ih =>
+    simp only [Bool.and_eq_true] at hab
+    obtain ⟨dm1, d1, t1, dt1, rfl⟩ := isDiag_cases a hab.1
+    obtain ⟨dm2, d2, t2, dt2, rfl⟩ := isDiag_cases b hab.2
+    apply ih
+    intro y hy
+    simp only [List.mem_cons] at hy
+    rcases hy with rfl | hy
+    · exact hP.diag0 _ _ _
+    · exact h y (by simp [hy])
+  | case2 a b rest hab ih =>
+    intro y hy
+    simp only [List.mem_cons] at hy
+    rcases hy with rfl | hy
+    · exact h _ (by simp)
+    · exact ih (fun z hz => h z (by simp only [List.mem_cons] at hz ⊢; tauto)) y hy
+  | case3 l hl => exact h
+
+theorem chainNullCollapse_pres (P : Op K (X → K) → Prop) (hP : Fresh P) (l : List (Op K (X → K))) (h : ∀ y ∈ l, P y) :
+    ∀ y ∈ chainNullCollapse l, P y := by
+  unfold chainNullCollapse
+  split
+  · intro y hy; simp only [List.mem_singleton] at hy; rw [hy]; exact hP.null _ _
+  · exact h
+
+theorem chainPost_pres (P : Op K (X → K) → Prop) (hP : Fresh P) (mk : List (Op K (X → K)) → Op K (X → K))
+    (l : List (Op K (X → K))) (h : ∀ y ∈ l, P y) (hok : ∀ y ∈ l, okC y = true) : ∀ y ∈ chainPost S mk l, P y := by
+  simp only [chainPost]
+  -- the list before the merges satisfies P and okC
+  have key : ∀ (l3 : List (Op K (X → K))), (∀ y ∈ l3, P y) → (∀ y ∈ l3, okC y = true) →
+      ∀ y ∈ chainMergeBlock S mk (chainMergeDiag S l3), P y := by
+    intro l3 h3 hok3
+    have h2 := (chainMergeDiag_sound isReal re blocks leaf l3 0 (by decide) hok3).2
+    rw [chainMergeBlock_noblock isReal re blocks leaf mk _ (fun o ho => by
+      have := h2 o ho
+      simp only [okC, Bool.and_eq_true, Bool.not_eq_true'] at this
+      exact this.1.2)]
+    exact chainMergeDiag_pres isReal re blocks leaf P hP l3 h3
+  generalize l.foldl (chainCollectStep S) (msem isReal re blocks leaf).kone = fct
+  have hf1 : ∀ y ∈ l.filter (fun o => !isRealScaling S o), P y := fun y hy => h y (List.mem_of_mem_filter hy)
+  have hf2 : ∀ y ∈ l.filter (fun o => !isRealScaling S o), okC y = true := fun y hy => hok y (List.mem_of_mem_filter hy)
+  generalize l.filter (fun o => !isRealScaling S o) = opsnew at hf1 hf2 ⊢
+  have hk : ∀ f : K, (msem isReal re blocks leaf).keq f (msem isReal re blocks leaf).kone = decide (f = 1) := fun _ => rfl
+  have app : ∀ (l3 : List (Op K (X → K))) (c : Bool) (f : K), (∀ y ∈ l3, P y) → (∀ y ∈ l3, okC y = true) →
+      (∀ y ∈ (if (c || l3.isEmpty) = true then l3 ++ [Op.scaling (lastDom l) f 0] else l3), P y) ∧
+      (∀ y ∈ (if (c || l3.isEmpty) = true then l3 ++ [Op.scaling (lastDom l) f 0] else l3), okC y = true) := by
+    intro l3 c f h3 hok3
+    constructor
+    · intro y hy
+      split at hy
+      · simp only [List.mem_append, List.mem_singleton] at hy
+        rcases hy with hy | rfl
+        · exact h3 y hy
+        · exact hP.scaling _ _ _
+      · exact h3 y hy
+    · intro y hy
+      split at hy
+      · simp only [List.mem_append, List.mem_singleton] at hy
+        rcases hy with hy | rfl
+        · exact hok3 y hy
+        · simp [okC, diagOK, isBlock, isChainOp]
+      · exact hok3 y hy
+  by_cases hf : fct = 1
+  · subst hf
+    simp only [hk, decide_true, Bool.not_true, Bool.false_eq_true, if_false]
+    obtain ⟨a1, a2⟩ := app opsnew false 1 hf1 hf2
+    exact key _ a1 a2
+  · have hdf : decide (fct = 1) = false := by simpa using hf
+    simp only [hk, hdf, Bool.not_false, if_true]
+    obtain ⟨a1, a2⟩ := app (chainAbsorb S fct opsnew).1 (!decide ((chainAbsorb S fct opsnew).2 = 1)) (chainAbsorb S fct opsnew).2
+      (chainAbsorb_pres isReal re blocks leaf P hP fct opsnew hf1)
+      (chainAbsorb_sound isReal re blocks leaf fct opsnew 0 (by decide) hf2).2
+    exact key _ a1 a2
+
+
+/-- shape invariant of the operator objects the (modelled) constructors produce from block-free scripts: transformations are 0..3,
+    adapters never wrap chains, chains are non-empty and flat, sums are flat, no block-diagonal operators -/
+def Inv : Op K (X → K) → Bool
+  | .leaf _ _ _ _ => true
+  | .scaling _ _ _ => true
+  | .null _ _ => true
+  | .diag _ _ t _ => decide (t < 4)
+  | .idEntry _ => false
+  | .blockdiag _ _ => false
+  | .adapter o t => decide (t < 4) && Inv o && !isChainOp o
+  | .chain l => !l.isEmpty && (l.map fun x => Inv x && !isChainOp x).all id
+  | .sum l _ => (l.map fun x => Inv x && !isSumOp x).all id
+  | .sandwich _ _ op => Inv op
+  | .invEnabler o => Inv o
+
+theorem Inv_notBlock (o : Op K (X → K)) (h : Inv o = true) : isBlock o = false := by
+  cases o <;> simp_all [Inv, isBlock]
+
+theorem Inv_chain (l : List (Op K (X → K))) (h : Inv (Op.chain l) = true) :
+    l ≠ [] ∧ ∀ x ∈ l, Inv x = true ∧ isChainOp x = false := by
+  simp only [Inv, Bool.and_eq_true, Bool.not_eq_true', List.isEmpty_eq_false_iff, List.all_map, List.all_eq_true,
+    Function.comp, id] at h
+  exact ⟨h.1, fun x hx => h.2 x hx⟩
+
+theorem Inv_chain_mk (l : List (Op K (X → K))) (hne : l ≠ []) (h : ∀ x ∈ l, Inv x = true ∧ isChainOp x = false) :
+    Inv (Op.chain l) = true := by
+  simp only [Inv, Bool.and_eq_true, Bool.not_eq_true', List.isEmpty_eq_false_iff, List.all_map, List.all_eq_true,
+    Function.comp, id]
+  exact ⟨hne, fun x hx => h x hx⟩
+
+theorem Inv_goodF (o : Op K (X → K)) (h : Inv o = true) : goodF o = true := by
+  induction o using goodF.induct with
+  | case1 dm d t dt => simpa [Inv, goodF] using h
+  | case2 o t ih =>
+    simp only [Inv, Bool.and_eq_true, decide_eq_true_eq, Bool.not_eq_true'] at h
+    simp only [goodF, Bool.and_eq_true, decide_eq_true_eq, Bool.not_eq_true']
+    exact ⟨⟨⟨h.1.1, ih h.1.2⟩, h.2⟩, Inv_notBlock o h.1.2⟩
+  | case3 ops ih =>
+    obtain ⟨hne, hm⟩ := Inv_chain ops h
+    simp only [goodF, Bool.and_eq_true, Bool.not_eq_true', List.isEmpty_eq_false_iff, List.all_map, List.all_eq_true,
+      Function.comp, id]
+    exact ⟨hne, fun x hx => ⟨⟨ih x hx (hm x hx).1, Inv_notBlock x (hm x hx).1⟩, (hm x hx).2⟩⟩
+  | case4 o h1 h2 h3 => cases o <;> simp_all [goodF, Inv]
+
+theorem Inv_diagOK (o : Op K (X → K)) (h : Inv o = true) : diagOK o = true := by
+  cases o <;> simp_all [Inv, diagOK]
+
+theorem Inv_okC (o : Op K (X → K)) (h : Inv o = true) (hc : isChainOp o = false) : okC o = true := by
+  simp [okC, Inv_diagOK o h, Inv_notBlock o h, hc]
+
+theorem Inv_okS (o : Op K (X → K)) (h : Inv o = true) : okS o = true := by
+  simp [okS, Inv_diagOK o h, Inv_notBlock o h]
+
+theorem Inv_opnd (o : Op K (X → K)) (h : Inv o = true) : opnd o := by
+  by_cases hc : isChainOp o = true
+  · obtain ⟨l, rfl⟩ : ∃ l, o = Op.chain l := by cases o <;> simp [isChainOp] at hc; exact ⟨_, rfl⟩
+    obtain ⟨hne, hm⟩ := Inv_chain l h
+    refine ⟨fun l' hl' => by injection hl' with hl'; rw [← hl']; exact hne, ?_⟩
+    rw [show chainFlatten [Op.chain l] = l by simp [chainFlatten]]
+    exact fun y hy => Inv_okC y (hm y hy).1 (hm y hy).2
+  · exact opnd_of_okC _ (Inv_okC o h (by simpa using hc))
+
+theorem chainFlatten_members (P : Op K (X → K) → Prop) (ops : List (Op K (X → K)))
+    (h : ∀ x ∈ ops, (isChainOp x = false → P x) ∧ (∀ l, x = Op.chain l → ∀ y ∈ l, P y)) : ∀ y ∈ chainFlatten ops, P y := by
+  induction ops with
+  | nil => simp [chainFlatten]
+  | cons x xs ih =>
+    intro y hy
+    rw [chainFlatten_cons, List.mem_append] at hy
+    rcases hy with hy | hy
+    · cases x with
+      | chain l =>
+        rw [show chainFlatten [Op.chain l] = l by simp [chainFlatten]] at hy
+        exact (h _ (by simp)).2 l rfl y hy
+      | _ =>
+        simp only [chainFlatten, List.flatMap_cons, List.flatMap_nil, List.append_nil, List.mem_singleton] at hy
+        rw [hy]; exact (h _ (by simp)).1 (by simp [isChainOp])
+    · exact ih (fun z hz => h z (by simp [hz])) y hy
+
+/-- **ChainOperator.make preserves the shape invariant** -/
+theorem mkChainU_Inv (hre : ∀ c, isReal c = true → re c = c) (fuel : Nat) (ops : List (Op K (X → K))) (hne0 : ops ≠ [])
+    (h : ∀ x ∈ ops, Inv x = true) : Inv (mkChainU S (fuel + 1) ops) = true := by
+  let P : Op K (X → K) → Prop := fun y => Inv y = true ∧ isChainOp y = false
+  have hP : Fresh P := ⟨fun _ _ _ => by simp [P, Inv, isChainOp], fun _ _ _ => by simp [P, Inv, isChainOp],
+    fun _ _ => by simp [P, Inv, isChainOp]⟩
+  have hflat : ∀ y ∈ chainFlatten ops, P y := by
+    apply chainFlatten_members
+    intro x hx
+    exact ⟨fun hc => ⟨h x hx, hc⟩, fun l hl y hy => by
+      have := h x hx; rw [hl] at this; exact (Inv_chain l this).2 y hy⟩
+  have hflatok : ∀ y ∈ chainFlatten ops, okC y = true := fun y hy => Inv_okC y (hflat y hy).1 (hflat y hy).2
+  obtain ⟨hne, _⟩ := opnd_list ops (fun x hx => Inv_opnd x (h x hx))
+  have hcoreP : ∀ y ∈ chainSimplifyCore S (mkChainU S fuel) ops, P y := by
+    unfold chainSimplifyCore
+    have h1 := chainNullCollapse_pres P hP _ hflat
+    have h2 := (chainNullCollapse_sound isReal re blocks leaf _ 0 (by decide) hflatok).2
+    exact chainPost_pres isReal re blocks leaf P hP _ _ h1 h2
+  have hcorene := (chainSimplifyCore_sound isReal re blocks leaf hre (mkChainU S fuel) ops 0 (by decide) hne hflatok).2.1
+  have hres : ∀ L, L = chainSimplify S (mkChainU S fuel) ops →
+      (∃ x ∈ ops, L = [x]) ∨ (L ≠ [] ∧ ∀ y ∈ L, P y) := by
+    intro L hL
+    unfold chainSimplify at hL
+    split at hL
+    · exact Or.inl ⟨_, by simp, hL⟩
+    · split at hL
+      · exact Or.inl ⟨_, by simp, hL⟩
+      · split at hL
+        · exact Or.inl ⟨_, by simp, hL⟩
+        · exact Or.inr (hL ▸ ⟨hcorene, hcoreP⟩)
+    · exact Or.inr (hL ▸ ⟨hcorene, hcoreP⟩)
+  rw [mkChainU]
+  rcases hres _ rfl with ⟨x, hx, hL⟩ | ⟨hLne, hLP⟩
+  · rw [hL]; exact h x hx
+  · split
+    · rename_i o heq
+      exact (hLP o (by rw [heq]; simp)).1
+    · exact Inv_chain_mk _ hLne hLP
+
+
+theorem sumAbsorb_pres (P : Op K (X → K) → Prop) (hP : Fresh P) (c : K) (dt : Nat) (l : List (Op K (X → K) × Bool))
+    (h : ∀ p ∈ l, P p.1) : ∀ p ∈ (sumAbsorb S c dt l).1, P p.1 := by
+  induction l with
+  | nil => simp [sumAbsorb]
+  | cons p ps ih =>
+    obtain ⟨o, n⟩ := p
+    by_cases hc : (isDiag o && dtOf o == dt) = true
+    · simp only [sumAbsorb, hc, if_true]
+      simp only [Bool.and_eq_true] at hc
+      obtain ⟨dm, d, t, dt', rfl⟩ := isDiag_cases o hc.1
+      intro q hq
+      simp only [List.mem_cons] at hq
+      rcases hq with rfl | hq
+      · exact hP.diag0 _ _ _
+      · exact h q (by simp [hq])
+    · have hc' : (isDiag o && dtOf o == dt) = false := by simpa using hc
+      simp only [sumAbsorb, hc', Bool.false_eq_true, if_false]
+      intro q hq
+      simp only [List.mem_cons] at hq
+      rcases hq with rfl | hq
+      · exact h _ (by simp)
+      · exact ih (fun z hz => h z (by simp [hz])) q hq
+
+theorem sumAbsorbDiags_pres (P : Op K (X → K) → Prop) (hP : Fresh P) (dt0 : Nat) (acc : Op K (X → K)) (accneg : Bool)
+    (l : List (Op K (X → K) × Bool)) (hacc : P acc) (hd : isDiag acc = true) (h : ∀ p ∈ l, P p.1) :
+    P (sumAbsorbDiags S dt0 acc accneg l).1 ∧ ∀ p ∈ (sumAbsorbDiags S dt0 acc accneg l).2.2, P p.1 := by
+  induction l generalizing acc accneg with
+  | nil => simp [sumAbsorbDiags, hacc]
+  | cons p ps ih =>
+    obtain ⟨o, n⟩ := p
+    have h' : ∀ p ∈ ps, P p.1 := fun z hz => h z (by simp [hz])
+    by_cases hc : (isDiag o && dtOf o == dt0) = true
+    · simp only [sumAbsorbDiags, hc, if_true]
+      simp only [Bool.and_eq_true] at hc
+      obtain ⟨dm, d, t, dt, rfl⟩ := isDiag_cases acc hd
+      obtain ⟨dm2, d2, t2, dt2, rfl⟩ := isDiag_cases o hc.1
+      exact ih _ false (hP.diag0 _ _ _) (by simp [diagCombineSum, isDiag]) h'
+    · have hc' : (isDiag o && dtOf o == dt0) = false := by simpa using hc
+      simp only [sumAbsorbDiags, hc', Bool.false_eq_true, if_false]
+      obtain ⟨i1, i2⟩ := ih acc accneg hacc hd h'
+      refine ⟨i1, ?_⟩
+      intro q hq
+      simp only [List.mem_cons] at hq
+      rcases hq with rfl | hq
+      · exact h _ (by simp)
+      · exact i2 q hq
+
+theorem sumMergeDiags_pres (P : Op K (X → K) → Prop) (hP : Fresh P) (l : List (Op K (X → K) × Bool)) (h : ∀ p ∈ l, P p.1) :
+    ∀ p ∈ sumMergeDiags S l, P p.1 := by
+  fun_induction sumMergeDiags S l with
+  | case1 => exact h
+  | case2 o n rest ho r ih =>
+    obtain ⟨h1, h2⟩ := sumAbsorbDiags_pres isReal re blocks leaf P hP (dtOf o) o n rest (h (o, n) (by simp)) ho
+      (fun z hz => h z (by simp [hz]))
+    intro q hq
+    simp only [List.mem_cons] at hq
+    rcases hq with rfl | hq
+    · exact h1
+    · exact ih h2 q hq
+  | case3 o n rest ho ih =>
+    intro q hq
+    simp only [List.mem_cons] at hq
+    rcases hq with rfl | hq
+    · exact h _ (by simp)
+    · exact ih (fun z hz => h z (by simp [hz])) q hq
+
+theorem sumProcessGroup_pres (P : Op K (X → K) → Prop) (hP : Fresh P) (fuel : Nat)
+    (mk : List (Op K (X → K)) → List Bool → Op K (X → K)) (opset : List (Op K (X → K) × Bool))
+    (h : ∀ p ∈ opset, P p.1) (hok : ∀ p ∈ opset, okS p.1 = true) : ∀ p ∈ sumProcessGroup S fuel mk opset, P p.1 := by
+  simp only [sumProcessGroup]
+  generalize (opset.filter fun x => isScaling x.1).foldl (sumScalStep S) (msem isReal re blocks leaf).kzero = sc
+  generalize commonDtype ((opset.filter fun x => isScaling x.1).map (fun x => dtOf x.1)) = dtype
+  have hf1 : ∀ p ∈ opset.filter (fun x => !isScaling x.1), P p.1 := fun p hp => h p (List.mem_of_mem_filter hp)
+  have hf2 : ∀ p ∈ opset.filter (fun x => !isScaling x.1), okS p.1 = true := fun p hp => hok p (List.mem_of_mem_filter hp)
+  generalize opset.filter (fun x => !isScaling x.1) = others at hf1 hf2 ⊢
+  have hk : ∀ f : K, (msem isReal re blocks leaf).keq f (msem isReal re blocks leaf).kzero = decide (f = 0) := fun _ => rfl
+  have key : ∀ (l : List (Op K (X → K) × Bool)) (c : Bool) (f : K), (∀ p ∈ l, P p.1) → (∀ p ∈ l, okS p.1 = true) →
+      ∀ p ∈ sumMergeBlocks S fuel mk (sumMergeDiags S
+        (if (c || l.isEmpty) = true then l ++ [(Op.scaling (firstDom opset) f dtype, false)] else l)), P p.1 := by
+    intro l c f hl hlok
+    have hP3 : ∀ p ∈ (if (c || l.isEmpty) = true then l ++ [(Op.scaling (firstDom opset) f dtype, false)] else l), P p.1 := by
+      intro p hp
+      split at hp
+      · simp only [List.mem_append, List.mem_singleton] at hp
+        rcases hp with hp | rfl
+        · exact hl p hp
+        · exact hP.scaling _ _ _
+      · exact hl p hp
+    have hok3 : ∀ p ∈ (if (c || l.isEmpty) = true then l ++ [(Op.scaling (firstDom opset) f dtype, false)] else l),
+        okS p.1 = true := by
+      intro p hp
+      split at hp
+      · simp only [List.mem_append, List.mem_singleton] at hp
+        rcases hp with hp | rfl
+        · exact hlok p hp
+        · simp [okS, diagOK, isBlock]
+      · exact hlok p hp
+    have hm2 := (sumMergeDiags_sound isReal re blocks leaf _ 0 (by decide) hok3).2
+    rw [sumMergeBlocks_noblock isReal re blocks leaf fuel mk _ (fun p hp => by
+      have := hm2 p hp
+      simp only [okS, Bool.and_eq_true, Bool.not_eq_true'] at this
+      exact this.2)]
+    exact sumMergeDiags_pres isReal re blocks leaf P hP _ hP3
+  by_cases hf : sc = 0
+  · subst hf
+    simp only [hk, decide_true, Bool.not_true, Bool.false_eq_true, if_false]
+    exact key others false 0 hf1 hf2
+  · have hdf : decide (sc = 0) = false := by simpa using hf
+    simp only [hk, hdf, Bool.not_false, if_true]
+    exact key _ _ _ (sumAbsorb_pres isReal re blocks leaf P hP sc dtype others hf1)
+      (sumAbsorb_sound isReal re blocks leaf sc dtype others 0 (by decide) hf2).2
+
+theorem sumSimplify_pres (P : Op K (X → K) → Prop) (hP : Fresh P) (fuel : Nat)
+    (mk : List (Op K (X → K)) → List Bool → Op K (X → K)) (ops : List (Op K (X → K))) (neg : List Bool)
+    (h : ∀ p ∈ sumFlatten ops neg, P p.1 ∧ okS p.1 = true) : ∀ p ∈ sumSimplify S fuel mk ops neg, P p.1 := by
+  simp only [sumSimplify]
+  intro p hp
+  simp only [List.mem_flatMap] at hp
+  obtain ⟨k, _, hp⟩ := hp
+  exact sumProcessGroup_pres isReal re blocks leaf P hP fuel mk _
+    (fun q hq => (h q (List.mem_of_mem_filter hq)).1) (fun q hq => (h q (List.mem_of_mem_filter hq)).2) p hp
+
+
+theorem sumFlatten_members (P : Op K (X → K) → Prop) (ops : List (Op K (X → K))) (neg : List Bool)
+    (h : ∀ x ∈ ops, (isSumOp x = false → P x) ∧ (∀ l ns, x = Op.sum l ns → ∀ y ∈ l, P y)) :
+    ∀ p ∈ sumFlatten ops neg, P p.1 := by
+  unfold sumFlatten
+  intro p hp
+  simp only [List.mem_flatMap] at hp
+  obtain ⟨x, hx, hp⟩ := hp
+  have hx1 : x.1 ∈ ops := (List.of_mem_zip hx).1
+  obtain ⟨o, n⟩ := x
+  cases o with
+  | sum l ns =>
+    simp only at hp
+    exact (h _ hx1).2 l ns rfl p.1 (List.of_mem_zip hp).1
+  | _ =>
+    simp only [List.mem_singleton] at hp
+    rw [hp]; exact (h _ hx1).1 (by simp [isSumOp])
+
+theorem Inv_sum (l : List (Op K (X → K))) (ns : List Bool) (h : Inv (Op.sum l ns) = true) :
+    ∀ x ∈ l, Inv x = true ∧ isSumOp x = false := by
+  simp only [Inv, List.all_map, List.all_eq_true, Function.comp, id, Bool.and_eq_true, Bool.not_eq_true'] at h
+  exact h
+
+theorem Inv_sum_mk (l : List (Op K (X → K))) (ns : List Bool) (h : ∀ x ∈ l, Inv x = true ∧ isSumOp x = false) :
+    Inv (Op.sum l ns) = true := by
+  simp only [Inv, List.all_map, List.all_eq_true, Function.comp, id, Bool.and_eq_true, Bool.not_eq_true']
+  exact h
+
+/-- **SumOperator.make preserves the shape invariant** -/
+theorem mkSumU_Inv (hre : ∀ c, isReal c = true → re c = c) (fuel : Nat) (ops : List (Op K (X → K))) (neg : List Bool)
+    (h : ∀ x ∈ ops, Inv x = true) : Inv (mkSumU S (fuel + 1) ops neg) = true := by
+  let P : Op K (X → K) → Prop := fun y => Inv y = true ∧ isSumOp y = false
+  have hP : Fresh P := ⟨fun _ _ _ => by simp [P, Inv, isSumOp], fun _ _ _ => by simp [P, Inv, isSumOp],
+    fun _ _ => by simp [P, Inv, isSumOp]⟩
+  have hflat : ∀ p ∈ sumFlatten ops neg, P p.1 := by
+    apply sumFlatten_members
+    intro x hx
+    exact ⟨fun hc => ⟨h x hx, hc⟩, fun l ns hl y hy => by
+      have := h x hx; rw [hl] at this; exact Inv_sum l ns this y hy⟩
+  have hres := sumSimplify_pres isReal re blocks leaf P hP fuel (mkSumU S fuel) ops neg
+    (fun p hp => ⟨hflat p hp, Inv_okS p.1 (hflat p hp).1⟩)
+  rw [mkSumU]
+  split
+  · rename_i o n heq
+    have ho := (hres (o, n) (by rw [heq]; simp)).1
+    cases n
+    · simpa using ho
+    · simp only [if_true]
+      unfold negU
+      have hF : FUEL = 63 + 1 := rfl
+      rw [hF]
+      apply mkChainU_Inv isReal re blocks leaf hre 63 _ (by simp)
+      intro x hx
+      simp only [List.mem_cons, List.not_mem_nil, or_false] at hx
+      rcases hx with rfl | rfl
+      · simp [Inv]
+      · exact ho
+  · rename_i L hL
+    apply Inv_sum_mk
+    intro x hx
+    obtain ⟨p, hp, rfl⟩ := List.mem_map.mp hx
+    exact hres p hp
+
+theorem flip_Inv (hre : ∀ c, isReal c = true → re c = c) (o : Op K (X → K)) (t : Nat) (ht : t < 4) (h : Inv o = true) :
+    Inv (OpAlgebra.flip S o t) = true := by
+  fun_induction OpAlgebra.flip S o t with
+  | case1 o t0 t nt h0 =>
+    simp only [Inv, Bool.and_eq_true] at h; exact h.1.2
+  | case2 o t0 t nt h0 =>
+    simp only [Inv, Bool.and_eq_true, decide_eq_true_eq, Bool.not_eq_true'] at h ⊢
+    refine ⟨⟨?_, h.1.2⟩, h.2⟩
+    show adapterFlip t0 t < 4
+    rw [adapterFlip_eval t0 h.1.1 t ht]; exact xor_lt4 t0 h.1.1 t ht
+  | case3 d c dt t => simp [Inv]
+  | case4 dm d t0 dt t =>
+    have ht0 : t0 < 4 := by simpa [Inv] using h
+    simp only [Inv, decide_eq_true_eq]
+    rw [diagFlip_eval t0 ht0 t ht]; exact xor_lt4 t0 ht0 t ht
+  | case5 ops t h0 => exact h
+  | case6 ops t h0 hrev ih =>
+    obtain ⟨hne, hm⟩ := Inv_chain ops h
+    have hF : FUEL = 63 + 1 := rfl
+    rw [hF]
+    apply mkChainU_Inv isReal re blocks leaf hre 63 _ (by simpa using hne)
+    intro y hy
+    simp only [List.mem_map, List.mem_reverse] at hy
+    obtain ⟨x, hx, rfl⟩ := hy
+    exact ih x hx ht (hm x hx).1
+  | case7 ops t h0 hrev ih =>
+    obtain ⟨hne, hm⟩ := Inv_chain ops h
+    have hF : FUEL = 63 + 1 := rfl
+    rw [hF]
+    apply mkChainU_Inv isReal re blocks leaf hre 63 _ (by simpa using hne)
+    intro y hy
+    simp only [List.mem_map] at hy
+    obtain ⟨x, hx, rfl⟩ := hy
+    exact ih x hx ht (hm x hx).1
+  | case8 o t _ _ _ _ h0 => exact h
+  | case9 o t h1 h2 h3 h4 h0 =>
+    simp only [Inv, Bool.and_eq_true, decide_eq_true_eq, Bool.not_eq_true']
+    refine ⟨⟨ht, h⟩, ?_⟩
+    cases o <;> simp_all [isChainOp]
+
+
+/-! ### Part 9 — `.adjoint`, SandwichOperator.make for every bun, and **`tree_sound`**: the statement of C01 for expression trees -/
+
+theorem matmul_Inv (hre : ∀ c, isReal c = true → re c = c) (a b r : Op K (X → K)) (h : matmul S a b = .ok r)
+    (ha : Inv a = true) (hb : Inv b = true) : Inv r = true := by
+  unfold matmul at h
+  split at h
+  · injection h with h; subst h; exact ha
+  · unfold mkChain at h
+    simp only [List.isEmpty_cons, Bool.false_eq_true, if_false, List.length_cons, List.length_nil] at h
+    split at h
+    · rename_i hl; simp at hl
+    · split at h
+      · injection h with h; subst h
+        have hF : FUEL = 63 + 1 := rfl
+        rw [hF]
+        apply mkChainU_Inv isReal re blocks leaf hre 63 _ (by simp)
+        intro x hx
+        simp only [List.mem_cons, List.not_mem_nil, or_false] at hx
+        rcases hx with rfl | rfl
+        · exact ha
+        · exact hb
+      · cases h
+
+theorem scale_Inv (hre : ∀ c, isReal c = true → re c = c) (o r : Op K (X → K)) (f : K) (h : scale S o f = .ok r)
+    (ho : Inv o = true) : Inv r = true := by
+  unfold scale at h
+  split at h
+  · injection h with h; subst h; exact ho
+  · unfold callOp at h
+    split at h
+    · injection h with h; subst h; exact ho
+    · exact matmul_Inv isReal re blocks leaf hre _ _ _ h (by simp [Inv]) ho
+
+theorem ssum_zip_map (f : Op K (X → K) → Op K (X → K)) (l : List (Op K (X → K))) (ns : List Bool) (s s' : Nat)
+    (h : ∀ y ∈ l, den S (f y) (1 <<< s) = den S y (1 <<< s')) :
+    ssum isReal re blocks leaf ((l.map f).zip ns) s = ssum isReal re blocks leaf (l.zip ns) s' := by
+  induction l generalizing ns with
+  | nil => simp [ssum_nil]
+  | cons y ys ih =>
+    cases ns with
+    | nil => simp [ssum_nil]
+    | cons n ns =>
+      simp only [List.map_cons, List.zip_cons_cons, ssum_cons]
+      rw [h y (by simp), ih ns (fun z hz => h z (by simp [hz]))]
+
+/-- **the `.adjoint` property** (SumOperator distributes it over its summands and re-simplifies; everything else flips):
+    mode `s` of `op.adjoint` is mode `s xor ADJOINT` of `op` — for a sum in the two modes a sum advertises -/
+theorem adjointOf_sound (hre : ∀ c, isReal c = true → re c = c) (x : Op K (X → K)) (hx : Inv x = true) (s : Nat) (hs : s < 4)
+    (hsum : isSumOp x = true → s < 2) :
+    den S (adjointOf S x) (1 <<< s) = den S x (1 <<< (s ^^^ 1)) ∧ Inv (adjointOf S x) = true := by
+  by_cases hc : isSumOp x = true
+  · obtain ⟨l, ns, rfl⟩ : ∃ l ns, x = Op.sum l ns := by cases x <;> simp [isSumOp] at hc; exact ⟨_, _, rfl⟩
+    have hs2 : s < 2 := hsum hc
+    have hm := Inv_sum l ns hx
+    have hmap : l.map (adjointOf S) = l.map (OpAlgebra.flip S · ADJOINT_BIT) :=
+      List.map_congr_left (fun y hy => adjointOf_nonsum isReal re blocks leaf y (hm y hy).2)
+    have hInvm : ∀ y ∈ l.map (OpAlgebra.flip S · ADJOINT_BIT), Inv y = true := by
+      intro y hy
+      obtain ⟨z, hz, rfl⟩ := List.mem_map.mp hy
+      exact flip_Inv isReal re blocks leaf hre z 1 (by decide) (hm z hz).1
+    have hF : FUEL = 63 + 1 := rfl
+    rw [adjointOf, hmap, hF]
+    refine ⟨?_, mkSumU_Inv isReal re blocks leaf hre 63 _ ns hInvm⟩
+    have hflatInv : ∀ p ∈ sumFlatten (l.map (OpAlgebra.flip S · ADJOINT_BIT)) ns, Inv p.1 = true ∧ isSumOp p.1 = false := by
+      apply sumFlatten_members (P := fun y => Inv y = true ∧ isSumOp y = false)
+      intro y hy
+      exact ⟨fun hns => ⟨hInvm y hy, hns⟩, fun l' ns' hl' z hz => by
+        have := hInvm y hy; rw [hl'] at this; exact Inv_sum l' ns' this z hz⟩
+    have hP : Fresh (fun y : Op K (X → K) => Inv y = true ∧ isSumOp y = false) :=
+      ⟨fun _ _ _ => by simp [Inv, isSumOp], fun _ _ _ => by simp [Inv, isSumOp], fun _ _ => by simp [Inv, isSumOp]⟩
+    have hres := sumSimplify_pres isReal re blocks leaf _ hP 63 (mkSumU S 63) (l.map (OpAlgebra.flip S · ADJOINT_BIT)) ns
+      (fun p hp => ⟨hflatInv p hp, Inv_okS p.1 (hflatInv p hp).1⟩)
+    rw [mkSumU_sound isReal re blocks leaf hre 63 _ ns s hs2 (fun p hp => Inv_okS p.1 (hflatInv p hp).1)
+      (fun o heq => Inv_opnd o (hres (o, true) (by rw [heq]; simp)).1),
+      den_sum_ssum]
+    apply ssum_zip_map
+    intro y hy
+    exact flip_sound isReal re blocks leaf hre y 1 (by decide) (Inv_goodF y (hm y hy).1) s hs
+  · have hc' : isSumOp x = false := by simpa using hc
+    rw [adjointOf_nonsum isReal re blocks leaf x hc']
+    exact ⟨flip_sound isReal re blocks leaf hre x 1 (by decide) (Inv_goodF x hx) s hs,
+      flip_Inv isReal re blocks leaf hre x 1 (by decide) hx⟩
+
+
+/-- SandwichOperator.make (second part) for any bun satisfying the shape invariant, sums included (then in the two modes a sum
+    advertises); the result satisfies the invariant again -/
+theorem sandwichCore_sound2 (hre : ∀ c, isReal c = true → re c = c) (bun cheese r : Op K (X → K))
+    (h : sandwichCore S bun cheese = .ok r) (hbI : Inv bun = true) (hcI : Inv cheese = true) :
+    Inv r = true ∧ ∀ s, s < 4 → (isSumOp bun = true → s < 2) →
+      den S r (1 <<< s) = mprod (revOf s) [den S bun (1 <<< (s ^^^ 1)), den S cheese (1 <<< s), den S bun (1 <<< s)] := by
+  have hbo := Inv_opnd bun hbI
+  have hco := Inv_opnd cheese hcI
+  unfold sandwichCore at h
+  split at h
+  · rename_i d c dt
+    have hk : (msem isReal re blocks leaf).keq ((msem isReal re blocks leaf).kabs2 c) (msem isReal re blocks leaf).kone =
+        decide (c * star c = 1) := rfl
+    rw [hk] at h
+    have hprod : ∀ s, s < 4 → mprod (revOf s) [den S (Op.scaling d c dt) (1 <<< (s ^^^ 1)), den S cheese (1 <<< s),
+        den S (Op.scaling d c dt) (1 <<< s)] = modeScalar (c * star c) s • den S cheese (1 <<< s) := by
+      intro s hs
+      rw [den_scaling isReal re blocks leaf d c dt _ (xor_lt4 s hs 1 (by decide)), den_scaling isReal re blocks leaf d c dt s hs,
+        modeScalar_xor1 c s hs, modeScalar_mul _ _ s hs]
+      simp only [mprod_cons, mprod_nil]
+      cases revOf s <;> simp [smul_smul, mul_comm]
+    by_cases hf : c * star c = 1
+    · simp only [hf, decide_true, if_true] at h
+      injection h with h; subst h
+      refine ⟨hcI, fun s hs _ => ?_⟩
+      rw [hprod s hs, hf, modeScalar_one s hs, one_smul]
+    · have : decide (c * star c = 1) = false := by simpa using hf
+      simp only [this, Bool.false_eq_true, if_false] at h
+      split at h
+      · rename_i op hop
+        injection h with h; subst h
+        refine ⟨by simpa [Inv] using scale_Inv isReal re blocks leaf hre cheese op _ hop hcI, fun s hs _ => ?_⟩
+        rw [den_sandwich, hprod s hs]
+        exact scale_sound isReal re blocks leaf hre cheese op _ hop hco s hs
+      · cases h
+  · split at h
+    · cases h
+    · rename_i t ht
+      split at h
+      · rename_i op hop
+        injection h with h; subst h
+        have hadjI : Inv (adjointOf S bun) = true := by
+          by_cases hc : isSumOp bun = true
+          · exact (adjointOf_sound isReal re blocks leaf hre bun hbI 0 (by decide) (fun _ => by decide)).2
+          · exact (adjointOf_sound isReal re blocks leaf hre bun hbI 0 (by decide) (fun h' => absurd h' hc)).2
+        have htI := matmul_Inv isReal re blocks leaf hre _ _ _ ht hadjI hcI
+        refine ⟨by simpa [Inv] using matmul_Inv isReal re blocks leaf hre _ _ _ hop htI hbI, fun s hs hsum => ?_⟩
+        rw [den_sandwich]
+        have hadj := (adjointOf_sound isReal re blocks leaf hre bun hbI s hs hsum).1
+        obtain ⟨ht1, ht2⟩ := matmul_sound isReal re blocks leaf hre _ _ _ ht (Inv_opnd _ hadjI) hco s hs
+        rw [(matmul_sound isReal re blocks leaf hre _ _ _ hop ht2 hbo s hs).1, ht1, hadj]
+        simp only [mprod_cons, mprod_nil]
+        cases revOf s <;> simp [Matrix.mul_assoc]
+      · cases h
+
+
+/-! #### scripts: the property's rule, the matrix expression, and `tree_sound` -/
+
+/-- the property's own rule for "mode `s` is required/advertised" on construction scripts (sums: forward and adjoint only) -/
+def ReqE : Expr K (X → K) → Nat → Bool
+  | .leaf _ c _ _, s => (c &&& (1 <<< s)) != 0
+  | .scaling _ _ _, _ => true
+  | .diag _ _ _, _ => true
+  | .null _ _, s => (s &&& 2) == 0
+  | .add a b, s => ((s &&& 2) == 0) && ReqE a s && ReqE b s
+  | .sub a b, s => ((s &&& 2) == 0) && ReqE a s && ReqE b s
+  | .matmul a b, s => ReqE a s && ReqE b s
+  | .adjoint a, s => ReqE a (s ^^^ 1)
+  | .inverse a, s => ReqE a (s ^^^ 2)
+  | .neg a, s => ReqE a s
+  | .scale a _, s => ReqE a s
+  | .sandwich bun ch _, s => ReqE bun (s ^^^ 1) && ReqE ch s && ReqE bun s
+  | .sandwichNone bun _, s => ReqE bun (s ^^^ 1) && ReqE bun s
+  | _, _ => false
+
+theorem sumRooted_lt (e : Expr K (X → K)) (h : sumRooted e = true) (s : Nat) (hs : s < 4) (hr : ReqE e s = true) : s < 2 := by
+  fun_induction sumRooted e generalizing s with
+  | case1 a b =>
+    simp only [ReqE, Bool.and_eq_true, beq_iff_eq] at hr
+    have h2 : s &&& 2 = 0 := hr.1.1
+    clear hr
+    interval_cases s <;> simp_all
+  | case2 a b =>
+    simp only [ReqE, Bool.and_eq_true, beq_iff_eq] at hr
+    have h2 : s &&& 2 = 0 := hr.1.1
+    clear hr
+    interval_cases s <;> simp_all
+  | case3 a ih =>
+    have := ih h (s ^^^ 1) (xor_lt4 s hs 1 (by decide)) (by simpa [ReqE] using hr)
+    clear hr ih h
+    interval_cases s <;> simp_all
+  | case4 e h1 h2 h3 => simp at h
+
+/-- the matrix expression of a script, mode by mode (`leaf id m`: the given dense action of library leaf `id` in mode `m`) -/
+noncomputable def spec : Expr K (X → K) → Nat → Matrix X X K
+  | .leaf id _ _ _, s => leaf id (1 <<< s)
+  | .scaling _ c _, s => modeScalar c s • (1 : Matrix X X K)
+  | .diag _ d _, s => Matrix.diagonal (modeDiag d s)
+  | .null _ _, _ => 0
+  | .add a b, s => spec a s + spec b s
+  | .sub a b, s => spec a s + - spec b s
+  | .matmul a b, s => mprod (revOf s) [spec a s, spec b s]
+  | .adjoint a, s => spec a (s ^^^ 1)
+  | .inverse a, s => spec a (s ^^^ 2)
+  | .neg a, s => modeScalar (-1 : K) s • spec a s
+  | .scale a c, s => modeScalar c s • spec a s
+  | .sandwich bun ch _, s => mprod (revOf s) [spec bun (s ^^^ 1), spec ch s, spec bun s]
+  | .sandwichNone bun _, s => mprod (revOf s) [spec bun (s ^^^ 1), 1, spec bun s]
+  | _, _ => 0
+
+theorem mkSum_pair (hre : ∀ c, isReal c = true → re c = c) (x y o : Op K (X → K)) (n : Bool)
+    (h : mkSum S [x, y] [false, n] = .ok o) (hx : Inv x = true) (hy : Inv y = true) :
+    Inv o = true ∧ ∀ s, s < 2 →
+      den S o (1 <<< s) = den S x (1 <<< s) + (if n then - den S y (1 <<< s) else den S y (1 <<< s)) := by
+  have ho : o = mkSumU S FUEL [x, y] [false, n] := by
+    unfold mkSum at h
+    simp only [List.isEmpty_cons, Bool.false_eq_true, if_false, List.length_cons, List.length_nil, bne_self_eq_false,
+      List.head?_cons] at h
+    split at h
+    · injection h with h; exact h.symm
+    · cases h
+  subst ho
+  have hF : FUEL = 63 + 1 := rfl
+  have hall : ∀ z ∈ [x, y], Inv z = true := by
+    intro z hz; simp only [List.mem_cons, List.not_mem_nil, or_false] at hz
+    rcases hz with rfl | rfl
+    · exact hx
+    · exact hy
+  rw [hF]
+  refine ⟨mkSumU_Inv isReal re blocks leaf hre 63 _ _ hall, fun s hs => ?_⟩
+  have hflatInv : ∀ p ∈ sumFlatten [x, y] [false, n], Inv p.1 = true ∧ isSumOp p.1 = false := by
+    apply sumFlatten_members (P := fun y => Inv y = true ∧ isSumOp y = false)
+    intro z hz
+    exact ⟨fun hns => ⟨hall z hz, hns⟩, fun l' ns' hl' w hw => by
+      have := hall z hz; rw [hl'] at this; exact Inv_sum l' ns' this w hw⟩
+  have hP : Fresh (fun y : Op K (X → K) => Inv y = true ∧ isSumOp y = false) :=
+    ⟨fun _ _ _ => by simp [Inv, isSumOp], fun _ _ _ => by simp [Inv, isSumOp], fun _ _ => by simp [Inv, isSumOp]⟩
+  have hres := sumSimplify_pres isReal re blocks leaf _ hP 63 (mkSumU S 63) [x, y] [false, n]
+    (fun p hp => ⟨hflatInv p hp, Inv_okS p.1 (hflatInv p hp).1⟩)
+  rw [mkSumU_sound isReal re blocks leaf hre 63 _ _ s hs (fun p hp => Inv_okS p.1 (hflatInv p hp).1)
+    (fun o' heq => Inv_opnd o' (hres (o', true) (by rw [heq]; simp)).1)]
+  simp [ssum_cons, ssum_nil]
+
+
+/-- **C01 for expression trees** (`tree_sound`): every operator that the constructors build from a script of library leaves with
+    `+ - @ .adjoint .inverse -x x.scale(c) SandwichOperator.make` (scripts covered by `treeOK`) satisfies the shape invariant, and in
+    every mode the script's constituents provide (`ReqE`: the property's rule) it acts exactly as the matrix expression `spec` -/
+theorem tree_sound (hre : ∀ c, isReal c = true → re c = c) (e : Expr K (X → K)) :
+    ∀ o, build S e = .ok o → treeOK S e = true →
+      Inv o = true ∧ ∀ s, s < 4 → ReqE e s = true → den S o (1 <<< s) = spec leaf e s := by
+  induction e using treeOK.induct with
+  | case1 id cap dom tgt =>
+    intro o hb _
+    rw [build] at hb; injection hb with hb; subst hb
+    exact ⟨by simp [Inv], fun s _ _ => by simp [den, msem, spec]⟩
+  | case2 dom c dt =>
+    intro o hb _
+    rw [build] at hb; injection hb with hb; subst hb
+    exact ⟨by simp [Inv], fun s hs _ => by rw [den_scaling isReal re blocks leaf dom c dt s hs]; simp [spec]⟩
+  | case3 dom d dt =>
+    intro o hb _
+    rw [build] at hb; injection hb with hb; subst hb
+    exact ⟨by simp [Inv], fun s hs _ => by
+      rw [den_diag isReal re blocks leaf dom d 0 dt s (by decide) hs]; simp [spec]⟩
+  | case4 dom tgt =>
+    intro o hb _
+    rw [build] at hb; injection hb with hb; subst hb
+    exact ⟨by simp [Inv], fun s _ _ => by rw [den_null]; simp [spec]⟩
+  | case5 a b iha ihb =>
+    intro o hb hok
+    simp only [treeOK, Bool.and_eq_true] at hok
+    rw [build] at hb
+    split at hb
+    · rename_i x y hx hy
+      obtain ⟨ix, dx⟩ := iha x hx hok.1
+      obtain ⟨iy, dy⟩ := ihb y hy hok.2
+      obtain ⟨io, dd⟩ := mkSum_pair isReal re blocks leaf hre x y o false hb ix iy
+      refine ⟨io, fun s hs hr => ?_⟩
+      simp only [ReqE, Bool.and_eq_true, beq_iff_eq] at hr
+      have hs2 : s < 2 := by have h2 := hr.1.1; clear hr dd dx dy; interval_cases s <;> simp_all
+      rw [dd s hs2, dx s hs hr.1.2, dy s hs hr.2]
+      simp [spec]
+    · cases hb
+    · cases hb
+  | case6 a b iha ihb =>
+    intro o hb hok
+    simp only [treeOK, Bool.and_eq_true] at hok
+    rw [build] at hb
+    split at hb
+    · rename_i x y hx hy
+      obtain ⟨ix, dx⟩ := iha x hx hok.1
+      obtain ⟨iy, dy⟩ := ihb y hy hok.2
+      obtain ⟨io, dd⟩ := mkSum_pair isReal re blocks leaf hre x y o true hb ix iy
+      refine ⟨io, fun s hs hr => ?_⟩
+      simp only [ReqE, Bool.and_eq_true, beq_iff_eq] at hr
+      have hs2 : s < 2 := by have h2 := hr.1.1; clear hr dd dx dy; interval_cases s <;> simp_all
+      rw [dd s hs2, dx s hs hr.1.2, dy s hs hr.2]
+      simp [spec]
+    · cases hb
+    · cases hb
+  | case7 a b iha ihb =>
+    intro o hb hok
+    simp only [treeOK, Bool.and_eq_true] at hok
+    rw [build] at hb
+    split at hb
+    · rename_i x y hx hy
+      obtain ⟨ix, dx⟩ := iha x hx hok.1
+      obtain ⟨iy, dy⟩ := ihb y hy hok.2
+      refine ⟨matmul_Inv isReal re blocks leaf hre x y o hb ix iy, fun s hs hr => ?_⟩
+      simp only [ReqE, Bool.and_eq_true] at hr
+      rw [(matmul_sound isReal re blocks leaf hre x y o hb (Inv_opnd x ix) (Inv_opnd y iy) s hs).1, dx s hs hr.1, dy s hs hr.2]
+      simp [spec]
+    · cases hb
+    · cases hb
+  | case8 a iha =>
+    intro o hb hok
+    simp only [treeOK, Bool.and_eq_true] at hok
+    rw [build] at hb
+    split at hb
+    · rename_i x hx
+      injection hb with hb; subst hb
+      obtain ⟨ix, dx⟩ := iha x hx hok.1
+      have hcond := hok.2
+      rw [hx] at hcond
+      simp only [Bool.or_eq_true, Bool.not_eq_true'] at hcond
+      refine ⟨(adjointOf_sound isReal re blocks leaf hre x ix 0 (by decide) (fun _ => by decide)).2, fun s hs hr => ?_⟩
+      simp only [ReqE] at hr
+      have hx1 : s ^^^ 1 < 4 := xor_lt4 s hs 1 (by decide)
+      have hsum : isSumOp x = true → s < 2 := by
+        intro hsx
+        rcases hcond with h | h
+        · rw [hsx] at h; cases h
+        · have := sumRooted_lt a h (s ^^^ 1) hx1 hr
+          clear hr dx; interval_cases s <;> simp_all
+      rw [(adjointOf_sound isReal re blocks leaf hre x ix s hs hsum).1, dx (s ^^^ 1) hx1 hr]
+      simp [spec]
+    · cases hb
+  | case9 a iha =>
+    intro o hb hok
+    simp only [treeOK] at hok
+    rw [build] at hb
+    split at hb
+    · rename_i x hx
+      split at hb
+      · cases hb
+      · injection hb with hb; subst hb
+        obtain ⟨ix, dx⟩ := iha x hx hok
+        refine ⟨flip_Inv isReal re blocks leaf hre x 2 (by decide) ix, fun s hs hr => ?_⟩
+        simp only [ReqE] at hr
+        have hx2 : s ^^^ 2 < 4 := xor_lt4 s hs 2 (by decide)
+        have := flip_sound isReal re blocks leaf hre x 2 (by decide) (Inv_goodF x ix) s hs
+        unfold inverseOf
+        rw [show INVERSE_BIT = 2 from rfl, this, dx (s ^^^ 2) hx2 hr]
+        simp [spec]
+    · cases hb
+  | case10 a iha =>
+    intro o hb hok
+    simp only [treeOK] at hok
+    rw [build] at hb
+    split at hb
+    · rename_i x hx
+      obtain ⟨ix, dx⟩ := iha x hx hok
+      refine ⟨scale_Inv isReal re blocks leaf hre x o _ hb ix, fun s hs hr => ?_⟩
+      simp only [ReqE] at hr
+      rw [scale_sound isReal re blocks leaf hre x o _ hb (Inv_opnd x ix) s hs, dx s hs hr]
+      rfl
+    · cases hb
+  | case11 a c iha =>
+    intro o hb hok
+    simp only [treeOK] at hok
+    rw [build] at hb
+    split at hb
+    · rename_i x hx
+      obtain ⟨ix, dx⟩ := iha x hx hok
+      refine ⟨scale_Inv isReal re blocks leaf hre x o _ hb ix, fun s hs hr => ?_⟩
+      simp only [ReqE] at hr
+      rw [scale_sound isReal re blocks leaf hre x o _ hb (Inv_opnd x ix) s hs, dx s hs hr]
+      simp [spec]
+    · cases hb
+  | case12 bun ch dt ihb ihc =>
+    intro o hb hok
+    simp only [treeOK, Bool.and_eq_true] at hok
+    rw [build] at hb
+    split at hb
+    · rename_i xb xc hxb hxc
+      obtain ⟨ib, db⟩ := ihb xb hxb hok.1.1.1
+      obtain ⟨ic, dc⟩ := ihc xc hxc hok.1.1.2
+      have hcb := hok.1.2
+      have hcc := hok.2
+      rw [hxb] at hcb
+      rw [hxc] at hcc
+      simp only [Bool.or_eq_true, Bool.not_eq_true'] at hcb hcc
+      have hcore : sandwichCore S xb xc = .ok o := by
+        unfold mkSandwich sandwichArgs at hb
+        cases xc <;> first | (simp [isSandwichOp] at hcc; done) | (simpa using hb)
+      obtain ⟨io, dd⟩ := sandwichCore_sound2 isReal re blocks leaf hre xb xc o hcore ib ic
+      refine ⟨io, fun s hs hr => ?_⟩
+      simp only [ReqE, Bool.and_eq_true] at hr
+      have hx1 : s ^^^ 1 < 4 := xor_lt4 s hs 1 (by decide)
+      have hsum : isSumOp xb = true → s < 2 := by
+        intro hsx
+        rcases hcb with h | h
+        · rw [hsx] at h; cases h
+        · exact sumRooted_lt bun h s hs hr.2
+      rw [dd s hs hsum, db (s ^^^ 1) hx1 hr.1.1, dc s hs hr.1.2, db s hs hr.2]
+      simp [spec]
+    · cases hb
+    · cases hb
+  | case13 bun dt ihb =>
+    intro o hb hok
+    simp only [treeOK, Bool.and_eq_true] at hok
+    rw [build] at hb
+    split at hb
+    · rename_i xb hxb
+      obtain ⟨ib, db⟩ := ihb xb hxb hok.1
+      have hcb := hok.2
+      rw [hxb] at hcb
+      simp only [Bool.or_eq_true, Bool.not_eq_true'] at hcb
+      have hcore : sandwichCore S xb (Op.scaling (tgt xb) (msem isReal re blocks leaf).kone dt) = .ok o := by
+        unfold mkSandwich sandwichArgs at hb
+        simpa using hb
+      obtain ⟨io, dd⟩ := sandwichCore_sound2 isReal re blocks leaf hre xb _ o hcore ib (by simp [Inv])
+      refine ⟨io, fun s hs hr => ?_⟩
+      simp only [ReqE, Bool.and_eq_true] at hr
+      have hx1 : s ^^^ 1 < 4 := xor_lt4 s hs 1 (by decide)
+      have hsum : isSumOp xb = true → s < 2 := by
+        intro hsx
+        rcases hcb with h | h
+        · rw [hsx] at h; cases h
+        · exact sumRooted_lt bun h s hs hr.2
+      have hone : den S (Op.scaling (tgt xb) (msem isReal re blocks leaf).kone dt : Op K (X → K)) (1 <<< s) = 1 :=
+        isIdentity_den isReal re blocks leaf _ (by simp [isIdentity, msem]) _
+      rw [dd s hs hsum, db (s ^^^ 1) hx1 hr.1, hone, db s hs hr.2]
+      simp [spec]
+    · cases hb
+  | case14 t h1 h2 h3 h4 h5 h6 h7 h8 h9 h10 h11 h12 h13 =>
+    intro o _ hok
+    cases t with
+    | leaf a b c d => exact (h1 _ _ _ _ rfl).elim
+    | scaling a b c => exact (h2 _ _ _ rfl).elim
+    | diag a b c => exact (h3 _ _ _ rfl).elim
+    | null a b => exact (h4 _ _ rfl).elim
+    | add a b => exact (h5 _ _ rfl).elim
+    | sub a b => exact (h6 _ _ rfl).elim
+    | matmul a b => exact (h7 _ _ rfl).elim
+    | adjoint a => exact (h8 _ rfl).elim
+    | inverse a => exact (h9 _ rfl).elim
+    | neg a => exact (h10 _ rfl).elim
+    | scale a c => exact (h11 _ _ rfl).elim
+    | sandwich a b c => exact (h12 _ _ _ rfl).elim
+    | sandwichNone a b => exact (h13 _ _ rfl).elim
+    | invEnabler a => simp [treeOK] at hok
+    | block a b c => simp [treeOK] at hok
+    | missing => simp [treeOK] at hok
+
+/-- non-vacuity of `tree_sound`: `c·(L₀⁻¹ @ (D − L₁))` is a covered script, and it requires TIMES when `L₀` provides it -/
+example (d : X → K) (c : K) :
+    let e : Expr K (X → K) := Expr.scale (Expr.matmul (Expr.inverse (Expr.leaf 0 15 0 0))
+      (Expr.sub (Expr.diag 0 d 0) (Expr.leaf 1 3 0 0))) c
+    treeOK S e = true ∧ ReqE e 0 = true ∧ ReqE e 2 = false := by
+  simp [treeOK, ReqE]
 
 /-- non-vacuity of the hypotheses of `mkChainU_sound`: a diagonal with pending adjoint, a nested chain with a scaling, a leaf -/
 example : (∀ o ∈ chainFlatten [Op.diag 0 (fun _ : Fin 2 => (2 : ℚ)) 1 0, Op.chain [Op.scaling 0 (3 : ℚ) 0, Op.leaf 7 15 0 0]],
